@@ -22,6 +22,7 @@ CONSTANTS Lms,          \* frame sizes used
           PlcUnits,     \* sizes of concealment-only calls (2.5 ms units)
           Hybrids,      \* subset of {FALSE, TRUE}
           Cx,           \* complexity
+          Tds, Vrs, Vds,
           CtCap, VcCap, \* exploration bounds on consec_transient / vbr_count
           GenLen        \* 0: model checking; > 0: print every op history of this length (behaviour generation)
 
@@ -32,83 +33,121 @@ VARIABLES d, e,        \* decoder / encoder control state
           hy,          \* the stream is hybrid (start band 17)
           sync,        \* 0 nothing known, 1 the current triple is mirrored, 2 the old one as well
           run,         \* ghosts of the current loss run: [units, phase, amp, drop, n]
-          last,        \* the step just taken: [op, lm, foldRun, pd (decoder state before), combs]
           hist
 
-vars == <<d, e, hy, sync, run, last, hist>>
+vars == <<d, e, hy, sync, run, hist>>
 
 Run0 == [units |-> 0, phase |-> "none", amp |-> 32768, drop |-> 0, n |-> 0]
-Last0 == [op |-> "init", lm |-> 0, foldRun |-> FALSE, pd |-> DInit(1, 1), combs |-> <<>>, arg |-> 0]
-
 E0 == [f \in DOMAIN EClearedI |-> EClearedI[f]]
 
-Init == /\ d = DInit(1, 1) /\ e = E0 /\ hy = FALSE /\ sync = 2 /\ run = Run0 /\ last = Last0 /\ hist = <<>>
+Init == /\ TLCSet(1, {})
+        /\ d = DInit(1, 1) /\ e = E0 /\ hy = FALSE /\ sync = 2 /\ run = Run0 /\ hist = <<>>
 
 Cfg(vm) == [start |-> IF hy THEN 17 ELSE 0, C |-> 1, lfe |-> FALSE, cx |-> Cx, vbrOn |-> vm > 0, cv |-> vm = 2, hybrid |-> hy]
 
+\* the oracle values of one frame, built constructively (OracleOK is asserted on each in Good / Lost)
+PfChoices(cfg) == IF cfg.hybrid \/ cfg.cx < 5 THEN {<<0, MinPeriod, 0, MinPeriod>>}
+                  ELSE {<<0, MinPeriod, 0, pf>> : pf \in Periods \cup {MinPeriod}} \cup {<<1, p, q, MinPeriod>> : p \in Periods, q \in Qgs}
+FlagChoices(lm) == {<<0, 0>>, <<1, 0>>} \cup (IF lm > 0 THEN {<<0, 1>>} ELSE {})
 Oracles(lm, cfg) ==
-  {o \in [pf : 0..1, period : Periods, qg : Qgs, pfree : Periods \cup {MinPeriod}, silence : 0..1, transient : 0..1, tgd : Tgds, coded : Codeds,
-          td : 0..2, sd : {2}, ity : {e.ity}, vr : {0, 64}, vd : {0, 7}, di : {0}, ta : {256}, hf : {0}, rng : {<<1, 2>>}] :
-      /\ OracleOK(e, lm, o, cfg) /\ (lm = 0 => o.transient = 0) /\ (o.pf = 0 => (o.period = MinPeriod /\ o.qg = 0))
-      /\ (o.silence = 1 => (o.transient = 0 /\ o.tgd = 0))}
+  {[pf |-> pc[1], period |-> pc[2], qg |-> pc[3], pfree |-> pc[4], silence |-> fl[1], transient |-> fl[2], tgd |-> tg, coded |-> cb,
+    td |-> IF cfg.hybrid \/ fl[2] = 1 THEN e.td ELSE t, sd |-> 2, ity |-> e.ity, vr |-> v[1], vd |-> v[2], di |-> 0, ta |-> 256, hf |-> 0, rng |-> <<1, 2>>] :
+      pc \in {q \in PfChoices(cfg) : TRUE}, fl \in FlagChoices(lm), tg \in Tgds, cb \in Codeds, t \in Tds, v \in Vrs \X Vds}
+OraOK(lm, o, cfg) == ~(o.silence = 1 /\ (o.pf = 1 \/ o.pfree # MinPeriod \/ o.tgd = 1)) /\ Assert(OracleOK(e, lm, o, cfg), <<"OracleOK", o>>)
 
 \* the Opus layer's ctls before a CELT call
 Prep(x) == CtlStart(CtlChannels(CtlEnd(x, 21), 1), IF hy THEN 17 ELSE 0)
 
 LoseStep(x, r, lm) ==      \* ghosts of one concealed frame
   LET nb == NoiseBased(x) IN
-  [units |-> r.units + P2(lm), n |-> r.n + 1,
+  [units |-> Min(LossSat, r.units + P2(lm)), n |-> Min(6, r.n + 1),
    phase |-> IF nb THEN "noise" ELSE "pitch",
    amp |-> IF nb THEN r.amp ELSE (r.amp * FadeQ15(x)) \div 32768,
-   drop |-> IF nb THEN r.drop + DecayHalf(x) ELSE r.drop]
+   drop |-> IF nb THEN Min(8, r.drop + DecayHalf(x)) ELSE r.drop]
+
+Ref(x) == [ld |-> x.ld, skip |-> x.skip, pf |-> x.pp]
+
+\* each worker prints a tag the first time it meets it (vacuity guard of lib/checks/G12.py)
+Emit(t) == LET old == TLCGet(1) IN IF t \subseteq old THEN TRUE ELSE PrintT("TAGS " \o ToString(t \ old)) /\ TLCSet(1, old \cup t)
+T(c, name) == IF c THEN {name} ELSE {}
+
+-----------------------------------------------------------------------------
+(* Step theorems, asserted on every transition that is generated              *)
+\* a decoded frame: x before (after the ctls), y after, e1 the encoder after
+DecStepThm(x, y, e1, lm, h) ==
+  /\ Mirror(y, e1)                                                        \* one delivered frame re-synchronises the current triple
+  /\ lm # 0 => MirrorOld(y, e1)
+  /\ lm = 0 => y.ppo >= MinPeriod                                         \* the clamp in the state (1296-1297)
+  /\ \A c \in {DecodeCombs(x, lm, h)[i] : i \in 1..Len(DecodeCombs(x, lm, h))} \cup (IF DecodeFoldRun(x) THEN {FoldComb(x, lm)} ELSE {}) : CombLowest(c) >= 0
+  /\ y.ld = 0 /\ y.fold = 0
+  /\ Ref(y) = DO!CeltGood(Ref(x), NewP(h))                                \* refinement of DecOp
+  /\ DecodeFoldRun(x) <=> x.fold = 1
+\* a concealed frame
+LoseStepThm(x, y, lm) ==
+  /\ Ref(y) = DO!CeltLost(Ref(x), P2(lm), x.start)
+  /\ NoiseBased(x) = DO!CeltNoise(Ref(x), x.start)
+  /\ y.ld > 0 /\ y.ld >= x.ld /\ y.ld = Min(LossSat, x.ld + P2(lm))
+  /\ <<y.pp, y.ppo, y.pg, y.pgo, y.pt, y.pto>> = <<x.pp, x.ppo, x.pg, x.pgo, x.pt, x.pto>>      \* a lost frame leaves the filter alone
+  /\ ~NoiseBased(x) => /\ DO!CeltNeed(Ref(x)) = 0 /\ x.ld < NoiseAt /\ x.start = 0        \* pitch PLC: two decoded frames, early, not hybrid
+                       /\ y.fold = 1 /\ ~LoseFoldRun(x)                                     \* arms (or re-arms) the fold, never runs it
+                       /\ FadeQ15(x) = (IF x.ld = 0 THEN 32767 ELSE 26214) /\ y.rng = x.rng
+                       /\ (x.ld > 0 => y.lpi = x.lpi)
+  /\ NoiseBased(x) => /\ y.fold = 0 /\ y.skip = 1 /\ (LoseFoldRun(x) <=> x.fold = 1)
+                      /\ DecayHalf(x) = (IF x.ld = 0 THEN 3 ELSE 1) /\ y.lpi = x.lpi
+                      /\ (LoseFoldRun(x) => CombLowest(FoldComb(x, lm)) >= 0)
+ResetStepThm(x, y) ==
+  /\ \A f \in ResetFields : y[f] = DInit(x.ch, x.ds)[f]
+  /\ \A f \in DOMAIN x \ ResetFields : y[f] = x[f]
+  /\ Ref(y) = DO!CeltInit
 
 RECURSIVE LosePieces(_, _, _, _)
-\* conceal `rem` units: fold LoseFrame over the pieces; returns [d, run, foldRuns, ops]
+\* conceal `rem` units: fold LoseFrame over the pieces (asserting the step theorem on each); returns [d, run]
 LosePieces(x, r, rem, fz) ==
-  IF rem <= 0 THEN [d |-> x, run |-> r, folds |-> 0, pitchThenNoise |-> FALSE]
-  ELSE LET a == PlcPiece(rem, fz) lm == LmOfUnits(a)
-           x1 == LoseFrame(x, lm, PlcLagMin) r1 == LoseStep(x, r, lm)
-           rest == LosePieces(x1, r1, rem - a, fz) IN
-       [rest EXCEPT !.folds = rest.folds + (IF LoseFoldRun(x) THEN 1 ELSE 0)]
+  IF rem <= 0 THEN [d |-> x, run |-> r]
+  ELSE LET a == PlcPiece(rem, fz) lm == LmOfUnits(a) x1 == LoseFrame(x, lm, PlcLagMin) IN
+       IF Assert(LoseStepThm(x, x1, lm), <<"LoseStepThm", x, lm>>) THEN LosePieces(x1, LoseStep(x, r, lm), rem - a, fz) ELSE [d |-> x, run |-> r]
 
 Push(op) == hist' = IF GenLen > 0 THEN Append(hist, op) ELSE hist
 
 \* a frame is encoded and delivered
 Good(lm, vm, o) ==
-  LET cfg == Cfg(vm) h == EncHdr(e, o) x == Prep(d) IN
-  /\ HdrOK(h, lm, cfg.start)
-  /\ e' = EncodeFrame(e, lm, o, cfg)
-  /\ d' = DecodeFrame(x, lm, h, o.rng, 0)
+  LET cfg == Cfg(vm) h == EncHdr(e, o) x == Prep(d) y == DecodeFrame(x, lm, h, o.rng, 0) e1 == EncodeFrame(e, lm, o, cfg) IN
+  /\ OraOK(lm, o, cfg) /\ Assert(HdrOK(h, lm, cfg.start), <<"HdrOK", h>>)
+  /\ Assert(DecStepThm(x, y, e1, lm, h), <<"DecStepThm", x, lm, h>>)
+  /\ e' = e1 /\ d' = y
   /\ sync' = IF lm # 0 THEN 2 ELSE IF sync >= 1 THEN 2 ELSE 1
   /\ run' = Run0
-  /\ last' = [op |-> "dec", lm |-> lm, foldRun |-> DecodeFoldRun(x), pd |-> x, combs |-> DecodeCombs(x, lm, h) \o (IF DecodeFoldRun(x) THEN <<FoldComb(x, lm)>> ELSE <<>>), arg |-> NewP(h)]
+  /\ Emit(T(DecodeFoldRun(x), "foldByDecode") \cup T(lm = 0 /\ x.pp = 0, "oldClamped") \cup T(x.skip = 1 /\ y.skip = 1, "skipKept")
+          \cup T(x.skip = 1 /\ y.skip = 0, "skipCleared") \cup T(y.pg = 0 /\ e1.pp > MinPeriod, "offKeepsPeriod")
+          \cup T(y.pg # 0 /\ y.pgo # 0 /\ y.pp # y.ppo, "oldDiffers") \cup T(e1.vc > 0, "vbrCount") \cup T(e.lcb # 0 /\ e1.lcb # e.lcb, "lcbSlew")
+          \cup T(e1.ct >= 2, "consecTransient") \cup T(o.silence = 1, "silence") \cup T(hy, "hybridFrame") \cup T(h.tapset # 0, "tapsetCoded"))
   /\ Push(1) /\ UNCHANGED hy
 
 \* a frame is encoded and lost: the decoder conceals its duration
 Lost(lm, vm, o) ==
-  LET cfg == Cfg(vm) x == Prep(d) IN
-  /\ HdrOK(EncHdr(e, o), lm, cfg.start)
+  LET cfg == Cfg(vm) x == Prep(d) y == LoseFrame(x, lm, PlcLagMin) IN
+  /\ OraOK(lm, o, cfg)
+  /\ Assert(LoseStepThm(x, y, lm), <<"LoseStepThm", x, lm>>)
   /\ e' = EncodeFrame(e, lm, o, cfg)
-  /\ d' = LoseFrame(x, lm, PlcLagMin)
+  /\ d' = y
   /\ sync' = 0
   /\ run' = LoseStep(x, run, lm)
-  /\ last' = [op |-> IF NoiseBased(x) THEN "noise" ELSE "pitch", lm |-> lm, foldRun |-> LoseFoldRun(x), pd |-> x,
-              combs |-> IF LoseFoldRun(x) THEN <<FoldComb(x, lm)>> ELSE <<>>, arg |-> P2(lm)]
+  /\ Emit(T(NoiseBased(x), "noisePlc") \cup T(~NoiseBased(x), "pitchPlc") \cup T(LoseFoldRun(x), "foldByNoise") \cup T(y.ld = LossSat /\ x.ld = LossSat, "saturated")
+          \cup T(hy /\ NoiseBased(x), "hybridNoise") \cup T(~NoiseBased(x) /\ x.fold = 1, "foldRearmed"))
   /\ Push(2) /\ UNCHANGED hy
 
 \* a concealment call of u units with no frame consumed (the encoder does not move): the mirror is unaffected
 Plc(u, fz) ==
   LET x == Prep(d) res == LosePieces(x, run, u, fz) IN
   /\ d' = res.d /\ run' = res.run
-  /\ last' = [op |-> "plc", lm |-> 0, foldRun |-> res.folds > 0, pd |-> x, combs |-> <<>>, arg |-> Min(Min(u, 48), fz) + 0 * res.folds]
+  /\ Emit({"plcOdd"})
   /\ Push(IF u = 3 THEN 3 ELSE 4) /\ UNCHANGED <<e, hy, sync>>
 
-ResetDec == /\ d' = DReset(d) /\ sync' = 0 /\ run' = Run0 /\ last' = [Last0 EXCEPT !.op = "rdec", !.pd = d] /\ Push(5) /\ UNCHANGED <<e, hy>>
-ResetEnc == /\ e' = EReset(e) /\ sync' = 0 /\ last' = [Last0 EXCEPT !.op = "renc", !.pd = d] /\ Push(7) /\ UNCHANGED <<d, hy, run>>
-ResetBoth == /\ d' = DReset(d) /\ e' = EReset(e) /\ sync' = 2 /\ run' = Run0 /\ last' = [Last0 EXCEPT !.op = "rboth", !.pd = d] /\ Push(6) /\ UNCHANGED hy
+ResetDec == /\ Assert(ResetStepThm(d, DReset(d)), "ResetStepThm") /\ d' = DReset(d) /\ sync' = 0 /\ run' = Run0 /\ Push(5) /\ UNCHANGED <<e, hy>>
+ResetEnc == /\ e' = EReset(e) /\ Assert(EReset(e) = E0, "EncResetThm") /\ sync' = 0 /\ Push(7) /\ UNCHANGED <<d, hy, run>>
+ResetBoth == /\ d' = DReset(d) /\ e' = EReset(e) /\ sync' = 2 /\ run' = Run0 /\ Push(6) /\ UNCHANGED hy
 \* layer change (the Opus decoder resets the CELT decoder when the mode changes: opus_decoder.c:586; the encoder side likewise starts afresh)
-SetHybrid(b) == /\ b # hy /\ hy' = b /\ d' = DReset(d) /\ e' = EReset(e) /\ sync' = 2 /\ run' = Run0
-                /\ last' = [Last0 EXCEPT !.op = "mode", !.pd = d] /\ Push(8)
+SetHybrid(b) == /\ b # hy /\ hy' = b /\ d' = DReset(d) /\ e' = EReset(e) /\ sync' = 2 /\ run' = Run0 /\ Push(8)
 
 Next ==
   \/ \E lm \in Lms, vm \in VbrModes : \E o \in Oracles(lm, Cfg(vm)) : Good(lm, vm, o) \/ Lost(lm, vm, o)
@@ -118,74 +157,39 @@ Next ==
 
 Spec == Init /\ [][Next]_vars
 
-Bound == e.ct <= CtCap /\ e.vc <= VcCap /\ Len(hist) <= GenLen /\ run.n <= 12
-\* (rng, the float-valued drift and ghosts that only count are not part of the fingerprint)
-View == <<[d EXCEPT !.rng = W0], [e EXCEPT !.rng = W0], hy, sync, run, last, hist>>
+Bound == e.ct <= CtCap /\ e.vc <= VcCap /\ Len(hist) <= GenLen
+\* (rng is not part of the fingerprint)
+View == <<[d EXCEPT !.rng = W0], [e EXCEPT !.rng = W0], hy, sync, run, hist>>
 GenView == hist
 
 -----------------------------------------------------------------------------
-(* Theorems                                                                  *)
-Ref(x) == [ld |-> x.ld, skip |-> x.skip, pf |-> x.pp]
-
+(* State theorems                                                            *)
 TypeOK == DTypeOK(d) /\ ETypeOK(e)
 
-\* post-filter mirror
+\* post-filter mirror on loss-free streams (sync = 2 from a common reset as long as every frame is delivered)
 MirrorThm == /\ sync >= 1 => Mirror(d, e)
              /\ sync = 2 => MirrorOld(d, e)
-             /\ last.op = "dec" => Mirror(d, e)                        \* one delivered frame re-synchronises the current triple
-             /\ (last.op = "dec" /\ last.lm # 0) => MirrorOld(d, e)
 
-\* periods: >= 15 where a filter is on, <= 1022; no comb filter call reads before decode_mem (nor the encoder's before its
-\* COMBFILTER_MAXPERIOD history: T + 2 <= 1024)
+\* periods: >= 15 where a filter is on, <= 1022 (T + 2 <= COMBFILTER_MAXPERIOD: the encoder's history, and the decoder's
+\* DECODE_BUFFER_SIZE - N - T - 2 >= 0 for the longest frame)
 PeriodThm == /\ d.pg # 0 => d.pp >= MinPeriod
              /\ d.pgo # 0 => d.ppo >= MinPeriod
-             /\ (last.op = "dec" /\ last.lm = 0) => d.ppo >= MinPeriod
-             /\ \A i \in 1..Len(last.combs) : CombLowest(last.combs[i]) >= 0
              /\ e.pp + 2 <= MaxPeriod /\ d.pp + 2 <= MaxPeriod /\ d.ppo + 2 <= MaxPeriod
              /\ DecBuf - FrameN(3) - (MaxPeriod - 2) - 2 >= 0
 
-\* loss_duration = concealed time of the current run in 2.5 ms units, saturating; refinement of DecOp's CELT bookkeeping
-LossThm == /\ d.ld = Min(LossSat, run.units)
-           /\ last.op = "dec" => (d.ld = 0 /\ Ref(d) = DO!CeltGood(Ref(last.pd), last.arg))
-           /\ last.op \in {"pitch", "noise"} => /\ Ref(d) = DO!CeltLost(Ref(last.pd), last.arg, last.pd.start)
-                                                /\ (last.op = "noise") = DO!CeltNoise(Ref(last.pd), last.pd.start)
-                                                /\ d.ld > 0 /\ d.ld >= last.pd.ld
-           /\ last.op \in {"rdec", "rboth", "mode"} => Ref(d) = DO!CeltInit
-           /\ DO!CeltTypeOK(Ref(d))
-           \* pitch concealment only after two consecutive decoded frames since the last reset / noise concealment, only in the first
-           \* NoiseAt units of a run, never in hybrid
-           /\ last.op = "pitch" => (DO!CeltNeed(Ref(last.pd)) = 0 /\ last.pd.ld < NoiseAt /\ last.pd.start = 0)
+\* loss_duration = concealed time of the current run in 2.5 ms units, saturating
+LossThm == d.ld = run.units /\ DO!CeltTypeOK(Ref(d))
 
 \* fades: within a run the pitch phase comes first and never returns; its fade bound starts at 1 and shrinks by .8 per further
 \* frame; the noise phase lowers the band energies by 1.5 (first frame of a run) or .5 per frame
 FadeThm == /\ run.phase = "pitch" => (run.drop = 0 /\ run.amp <= 32767)
-           /\ (last.op = "pitch" /\ last.pd.ld > 0) => FadeQ15(last.pd) < 32767
-           /\ (last.op = "pitch" /\ last.pd.ld = 0) => FadeQ15(last.pd) = 32767
-           /\ (last.op = "noise") => run.drop >= 1
-           /\ (last.op = "pitch") => run.phase = "pitch"
-           /\ run.n >= 2 /\ run.phase = "pitch" => run.amp <= 26214
-           /\ run.n >= 5 /\ run.phase = "pitch" => run.amp < 16384
+           /\ run.phase = "noise" => run.drop >= 1
+           /\ (run.n >= 2 /\ run.phase = "pitch") => run.amp <= 26214
+           /\ (run.n >= 5 /\ run.phase = "pitch") => run.amp < 16384
+           /\ run.phase = "none" <=> run.n = 0
 
-\* prefilter_and_fold: armed by a pitch-concealed frame, consumed exactly once by the next frame that is decoded or noise-concealed
-FoldThm == /\ (d.fold = 1) <=> (last.op = "pitch" \/ (last.op = "plc" /\ run.phase = "pitch"))
-           /\ last.op \in {"dec", "noise"} => (last.foldRun <=> last.pd.fold = 1)
-           /\ last.op = "pitch" => ~last.foldRun
-
-\* OPUS_RESET_STATE leaves exactly the state celt_decoder_init() builds (C12), keeping start/end/stream_channels/downsample
-ResetThm == /\ last.op \in {"rdec", "rboth", "mode"} =>
-                 /\ \A f \in ResetFields : d[f] = DInit(d.ch, d.ds)[f]
-                 /\ \A f \in DOMAIN d \ ResetFields : d[f] = last.pd[f]
-            /\ last.op \in {"renc", "rboth", "mode"} => e = E0
-
-\* what the run must have visited (vacuity guard, printed)
-Tags == (IF last.op = "pitch" THEN {"pitchPlc"} ELSE {}) \cup (IF last.op = "noise" THEN {"noisePlc"} ELSE {})
-        \cup (IF last.foldRun /\ last.op = "dec" THEN {"foldByDecode"} ELSE {}) \cup (IF last.foldRun /\ last.op = "noise" THEN {"foldByNoise"} ELSE {})
-        \cup (IF d.ld = LossSat THEN {"saturated"} ELSE {}) \cup (IF last.op = "dec" /\ last.lm = 0 /\ d.ppo = MinPeriod /\ last.pd.pp = 0 THEN {"oldClamped"} ELSE {})
-        \cup (IF sync = 2 /\ d.pg # 0 /\ d.pgo # 0 /\ d.pp # d.ppo THEN {"mirrorBothOn"} ELSE {}) \cup (IF last.op = "plc" THEN {"plcOdd"} ELSE {})
-        \cup (IF last.op = "dec" /\ d.pg = 0 /\ e.pp > MinPeriod THEN {"offKeepsPeriod"} ELSE {}) \cup (IF hy /\ last.op = "noise" THEN {"hybridNoise"} ELSE {})
-        \cup (IF last.op = "dec" /\ last.pd.skip = 1 /\ d.skip = 1 THEN {"skipKept"} ELSE {}) \cup (IF last.op = "dec" /\ last.pd.skip = 1 /\ d.skip = 0 THEN {"skipCleared"} ELSE {})
-        \cup (IF e.vc > 0 THEN {"vbrCount"} ELSE {}) \cup (IF e.lcb # 0 /\ last.op = "dec" THEN {"lcbSlew"} ELSE {})
-TagsSeen == Tags = {} \/ PrintT("TAGS " \o ToString(Tags))
+\* prefilter_and_fold is armed exactly while the last CELT frame was pitch-concealed
+FoldThm == (d.fold = 1) <=> (run.phase = "pitch")
 
 GenOut == (GenLen > 0 /\ Len(hist) = GenLen) => PrintT("SEQ " \o ToString(hist))
 
@@ -193,12 +197,12 @@ GenOut == (GenLen > 0 /\ Len(hist) = GenLen) => PrintT("SEQ " \o ToString(hist))
 (* Static theorems (no state): LCG arithmetic, the piece rule, the bucket     *)
 RECURSIVE LcgIter(_, _)
 LcgIter(x, n) == IF n = 0 THEN x ELSE LcgIter(Lcg(x), n - 1)
-ASSUME Lcg(W0) = LcgC /\ Lcg(<<0, 1>>) = <<15495, 22892>>                    \* 1664525 + 1013904223 = 1015568748 = 15495*65536 + 22892... checked below
+ASSUME Lcg(W0) = LcgC /\ Lcg(<<0, 1>>) = <<15496, 22892>>                    \* 1664525 + 1013904223
 ASSUME \A x \in {W0, <<1, 2>>, <<65535, 65535>>, <<4660, 22136>>} : \A n \in {0, 1, 2, 7, 100, 200} : LcgN(x, n) = LcgIter(x, n)
 ASSUME \A x \in {<<1, 2>>, <<65535, 65535>>} : LcgN(LcgN(x, 800), 800) = LcgN(x, 1600)
 \* the piece rule is DecCtl's (CELT mode = 1002, 48 kHz: one unit = 120 samples), and covers every request with CELT frame sizes
 ASSUME \A rem \in 1..50, fz \in {1, 2, 4, 8, 16, 24} :
-          LET dd == [DO!DInit(48000, 1) EXCEPT !.frameSize = 120 * fz] IN
+          LET dd == [DO!DecInit(48000, 1) EXCEPT !.frameSize = 120 * fz] IN
           /\ 120 * PlcPiece(rem, fz) = DO!PlcPiece(dd, 1002, 120 * rem)
           /\ PlcPiece(rem, fz) \in {1, 2, 4, 8} /\ PlcPiece(rem, fz) <= rem
 \* the bucket: our transcription equals Cvbr!BucketStep; within MaxAllowed the reservoir stays within Cvbr!BucketBound
